@@ -457,6 +457,12 @@ class World:
         self.stats["events"] += len(I.events)
         return Analysis(I, ret, st, b.id, label or "%s::%s%s" % (contract, which, "/" + "/".join(vpath) if vpath else ""))
 
+    def has_fn(self, fid):
+        return self.F.get(fid) is not None
+
+    def find_fns(self, crate, pred):
+        return [b for b in self.F.fns(crate) if b.kind == "fn" and pred(b)]
+
     def run_fn(self, fid, args=None, policy=None, names=None):
         """Analyse a single function with parameters named after its own arguments."""
         b = self.F.get(fid)
@@ -511,6 +517,10 @@ class Check:
         else:
             self.fail(rule, instance, detail_fail or detail_ok, where_)
         return cond
+
+    def skip(self, rule, instance, why):
+        """a best-effort deepening that does not apply to this tree (e.g. a named helper was inlined/renamed)"""
+        self.notes.append("skipped %s | %s: %s" % (rule, instance, why))
 
     def violations(self):
         return [o for o in self.obligations if not o["held"]]
